@@ -52,6 +52,11 @@ co = f.__code__
 out = {"opcode": d, "code_dir": [n for n in dir(co) if not n.startswith("__")],
        "version": list(sys.version_info[:3]), "code_doc": types.CodeType.__doc__}
 try:
+    import inspect
+    out["code_sig"] = str(inspect.signature(types.CodeType))
+except Exception:
+    out["code_sig"] = None
+try:
     import importlib.util
     out["magic"] = list(bytearray(importlib.util.MAGIC_NUMBER))
 except Exception:
